@@ -5,6 +5,7 @@ correctly rounded, clamp harmless).  Correspondence: bit patterns from
 parse_double_from_buffer and from whole reads, real code vs model.  Oracle: Python's
 float(literal), which is correctly rounded."""
 import json
+import math
 import re
 import struct
 
@@ -95,12 +96,129 @@ def literals(tier, rng):
     return res
 
 
+def dbl_bits(m, e, neg):
+    """bit pattern of (-1)^neg * m * 2^e for a value that is a double (or of infinity when it is 2^1024)"""
+    try:
+        f = math.ldexp(m, e)
+    except OverflowError:
+        f = float("inf")
+    return struct.pack(">d", -f if neg else f).hex()
+
+
+def render(ds, q, layout, rng):
+    """a float literal for int(ds) * 10^q (ds: significant digits, first one non-zero) in one of several spellings"""
+    n = len(ds)
+    es = lambda x: rng.choice(["e", "E"]) + ("+" if x >= 0 and rng.random() < 0.3 else "") + str(x)
+    if layout == "plain":
+        if q >= 0:
+            return ds + "0" * q + rng.choice([".0", ".", ".000", "e0"])
+        il = n + q
+        return ds[:il] + "." + ds[il:] if il > 0 else "0." + "0" * (-il) + ds
+    if layout == "sci":
+        return ds[0] + "." + (ds[1:] or "0") + es(q + n - 1)
+    if layout == "int-e":
+        return ds + es(q)
+    if layout == "shift":
+        s = rng.randint(1, max(1, n - 1))
+        return ds[:s] + "." + (ds[s:] or "0") + es(q + n - s)
+    z = rng.randint(0, 25)  # "lead0"
+    return "0." + "0" * z + ds + es(q + n + z)
+
+
+LAYOUTS = ("plain", "sci", "int-e", "shift", "lead0")
+MAXLEN = 2000  # the property's quantifier: literals of 1..2000 significant characters
+
+
+def halfway_long(tier, rng):
+    """Decimal expansions of exact half-way points (2m+1)*2^(e-1) between the adjacent doubles m*2^e and (m+1)*2^e -
+    normal, subnormal, and the overflow threshold - written out exactly (up to 767 significant digits), then
+      tie    the expansion itself, also padded with zeros up to T significant digits       -> the even neighbour
+      above  padded with zeros and ONE non-zero digit as the T-th significant digit         -> the upper neighbour
+      below  last digit decreased, then nines up to T significant digits                    -> the lower neighbour
+    for T from just above the expansion's length up to literals of 2000 characters, in five spellings and both signs.
+    Returns [(literal, expected bits by construction, kind)]."""
+    pts = [(2 ** 52, 1), (2 ** 52 + 1, 1), (2 ** 52, -52), (2 ** 52 + 1, -52), (2 ** 53 - 1, -53), (2 ** 53 - 1, 0),
+           (0, -1074), (1, -1074), (2, -1074), (2 ** 52 - 1, -1074), (2 ** 52, -1074), (2 ** 52 - 2, -1074),
+           (2 ** 53 - 1, 971), (2 ** 53 - 2, 971), (2 ** 52, 971), (2 ** 52 + 12345, -1022 - 52)]
+    nrand = 10 if tier == "quick" else 60
+    for _ in range(nrand):
+        kind = rng.choice(["normal", "normal", "tiny", "huge", "subnormal", "unit"])
+        m = rng.randrange(2 ** 52, 2 ** 53)
+        if kind == "normal":
+            pts.append((m, rng.randint(-1074, 971)))
+        elif kind == "tiny":
+            pts.append((m, rng.randint(-1074, -1000)))
+        elif kind == "huge":
+            pts.append((m, rng.randint(900, 971)))
+        elif kind == "unit":
+            pts.append((m, rng.randint(-60, 10)))
+        else:
+            pts.append((rng.randrange(0, 2 ** rng.randint(1, 52)), -1074))
+    out = []
+    for pi, (m, e) in enumerate(pts):
+        num, e2 = 2 * m + 1, e - 1
+        if e2 >= 0:
+            n10, q = num << e2, 0
+        else:
+            n10, q = num * 5 ** (-e2), e2
+        ds = str(n10)
+        strip = len(ds) - len(ds.rstrip("0"))
+        if strip:
+            ds, q = ds[:-strip], q + strip
+        n0 = len(ds)
+        lo, hi = (m, e), (m + 1, e)
+        even = lo if m % 2 == 0 else hi
+        below = ds[:-1] + str(int(ds[-1]) - 1)  # ds has no trailing zero, so this is the digit string of n10/10^strip - 1
+        for lay_i in range(2):
+            neg = rng.random() < 0.3
+            lit = ("-" if neg else rng.choice(["", "", "+"])) + render(ds, q, "plain" if lay_i == 0 else LAYOUTS[1 + pi % 4], rng)
+            if len(lit) <= MAXLEN:
+                out.append((lit, dbl_bits(even[0], even[1], neg), "tie"))
+        # total numbers of significant digits: just beyond the expansion, sizes around internal buffers, random ones, the maximum
+        for lay in rng.sample(LAYOUTS, 2 if tier == "quick" else 5):
+            overhead = len(render(ds, q, lay, rng)) - n0 + 32
+            tmax = MAXLEN - overhead
+            if tmax <= n0 + 1:
+                continue
+            ts = {n0 + 1, n0 + 2, tmax, tmax - rng.randint(1, 40)}
+            ts |= set(t for t in (511, 512, 513, 767, 768, 769, 770, 800, 1023, 1024, 1025, 1100, 1536) if rng.random() < (0.35 if tier == "quick" else 1.0))
+            ts |= set(rng.randint(n0 + 1, tmax) for _ in range(3 if tier == "quick" else 10))
+            for t in sorted(x for x in ts if n0 < x <= tmax):
+                neg = rng.random() < 0.3
+                sg = "-" if neg else rng.choice(["", "", "+"])
+                pad = t - n0
+                cases = [(ds + "0" * pad, even, "tie-padded"),
+                         (ds + "0" * (pad - 1) + rng.choice("123456789"), hi, "above"),
+                         (below + "9" * (pad - 1) + rng.choice("0123456789"), lo, "below")]
+                for digs, tgt, kind in cases:
+                    if digs[0] == "0":
+                        continue
+                    lit = sg + render(digs, q - pad, lay, rng)
+                    if len(lit) <= MAXLEN:
+                        out.append((lit, dbl_bits(tgt[0], tgt[1], neg), kind))
+    return out
+
+
 def run(tier):
     rep = C.Report(PID, tier, "proof")
     rng = C.rng(PID)
     lean = U.lean_part(rep, PID)
     found = False
     lits = literals(tier, rng)
+    # exact half-way points continued by long runs of zeros / nines: expectation by construction, cross-checked with float()
+    hw = []
+    for lit, wbits, kind in halfway_long(tier, C.rng(PID + "/halfway-long")):
+        rep.count("halfway-long/" + kind)
+        if bits(lit) != wbits:
+            rep.count("halfway-long/oracles-disagree")  # construction vs Python's float(): never used as evidence against the library
+            continue
+        hw.append(lit)
+    rep.coverage["halfway_long"] = {"literals": len(hw), "min_chars": min(map(len, hw)), "max_chars": max(map(len, hw)),
+                                    "over_768_chars": sum(1 for s in hw if len(s) > 768)}
+    seen = set(lits)
+    hw = [s for s in hw if not (s in seen or seen.add(s))]
+    nbase = len(lits)
+    lits = lits + hw
     want = [bits(s) for s in lits]
     for cfg in ("core", "both"):
         # direct calls of the static converter
@@ -118,10 +236,11 @@ def run(tier):
                             {"kind": "line", "config": cfg, "line": lines[i], "literal": lits[i], "expected": want[i], "observed": a})
         for i in diffs[:5]:
             rep.broken_obligation("correspondence/converter", "model %r vs code %r on %s" % (model[i], impl[i], lits[i][:80]), False)
+        helper_missing = bool(impl) and all(a is None for a in impl) and not crashes
         # experimental flag: underscores between digits do not change the value (fraction and exponent included)
         if cfg in ("exp", "both"):
             udocs, uwant = [], []
-            for sl in lits[::7] + ["3.141592", "1000.0001", "0.50", "6.02214076e23", "123456.789012e-10", "1.0e100", "9007199254740993.0"]:
+            for sl in lits[:nbase:7] + hw[::23] + ["3.141592", "1000.0001", "0.50", "6.02214076e23", "123456.789012e-10", "1.0e100", "9007199254740993.0"]:
                 m = re.match(r"^([+-]?)([0-9]+)(?:\.([0-9]*))?(?:([eE][+-]?)([0-9]+))?$", sl)
                 if not m:
                     continue
@@ -149,21 +268,35 @@ def run(tier):
                     rep.finding("rounding/underscore", "literal %s read as %s, its value is %s" % (udocs[i].decode(), a[:80], uwant[i]),
                                 {"kind": "read", "config": cfg, "input_hex": C.hexs(udocs[i]), "literal": udocs[i].decode(), "expected": uwant[i], "observed": a[:200]})
         # whole reads (sign handling, terminators) and equal-value spellings
-        docs = [s.encode() for s in lits[:: (1 if tier == "thorough" else 3)]]
+        # (every literal when the converter could not be called directly because its signature changed; the long half-way
+        # family always completely)
+        every = tier == "thorough" or helper_missing
+        if helper_missing:
+            rep.count("reads-instead-of-converter-calls/" + cfg, nbase)
+        docs = [s.encode() for s in lits[:nbase: (1 if every else 3)]] + [s.encode() for s in hw]
+        nbd = len(docs) - len(hw)
         rl = K.read_lines(docs)
         impl, model, diffs, crashes, mcr = K.correspond(cfg, rl)
         rep.count("reads/" + cfg, len(rl))
+        rep.count("reads-halfway-long/" + cfg, len(hw))
+        for idx, rc, err in crashes:
+            found = True
+            rep.finding("read-crash", "reading a float literal crashed / sanitizer report", {"kind": "read", "config": cfg, "input_hex": C.hexs(docs[idx]), "stderr": err[:3000]})
         for i, a in enumerate(impl):
             if a is None:
                 continue
             e = "ok (float 0 %d %s)" % (len(docs[i]), bits(docs[i].decode()))
             if a != e:
                 found = True
-                rep.finding("read", "literal %r read as %s, expected %s" % (docs[i][:60], a[:80], e), {"kind": "read", "config": cfg, "input_hex": C.hexs(docs[i]), "expected": e, "observed": a})
+                lit = docs[i].decode()
+                nsig = len(re.sub(r"[eE].*$", "", lit).replace(".", "").lstrip("+-").lstrip("0"))
+                what = "literal %s%s (%d characters, %d significant digits) read as %s, expected %s" % (
+                    lit[:60], "..." + lit[-24:] if len(lit) > 84 else lit[60:], len(lit), nsig, a[:80], e)
+                rep.finding("read/halfway-long" if i >= nbd else "read", what, {"kind": "read", "config": cfg, "input_hex": C.hexs(docs[i]), "literal": lit, "expected": e, "observed": a})
         for i in diffs[:5]:
             rep.broken_obligation("correspondence/read", "model %r vs code %r on %r" % (model[i], impl[i], docs[i][:80]), False)
         # the literal ends where `length` says, whatever digits, point or exponent happen to follow in memory
-        tdocs = docs[:: (1 if tier == "thorough" else 4)]
+        tdocs = docs[:nbd: (1 if tier == "thorough" else 4)] + docs[nbd:: (2 if tier == "thorough" else 12)]
         if U.tail_independence(rep, cfg, tdocs, [b"0123456789012345678901234567890", b"e5 ", b".000000000000000001e3", b"5e-3\x00"], base=None):
             found = True
         rep.note_cases(len(lines) + len(rl), set(C.sha(s)[:16] for s in lits), sample={"literal": lits[10], "bits": want[10]})
